@@ -1,0 +1,28 @@
+//go:build verif
+
+package dbkit
+
+// VerifAwait is called before a wait that may block; ready reports whether the
+// wait could complete right now. It is only compiled with the "verif" build
+// tag and used by the model checking harness to own the scheduling of waits.
+var VerifAwait func(site string, obj interface{}, ready func() bool)
+
+func verifAwait(site string, obj interface{}, ready func() bool) {
+	if f := VerifAwait; f != nil {
+		f(site, obj, ready)
+	}
+}
+
+// verifClosed reports whether a channel that is only ever closed (never sent
+// on) has been closed.
+func verifClosed(ch <-chan struct{}) bool {
+	select {
+	case <-ch:
+		return true
+	default:
+		return false
+	}
+}
+
+// VerifFree returns the number of available tokens.
+func (s *Semaphore) VerifFree() int { return len(s.tokens) }
